@@ -355,7 +355,7 @@ func c16ParseCases(c *Ctx, emit func(parseCase)) {
 func init() {
 	register(&Prop{
 		ID: "C16",
-		Rule: "round trip: issuers (no colon), accounts and secrets (base32 in every accepted spelling - padded, lower/mixed case, white space - or text) drawn from Unicode incl. space % / ? # & = + @ and percent-escape look-alikes x digits 0..255 x 3 hashes x periods {0,1,29,30,31,60,2^31}; Generate{TOTP,HOTP}URL(p).String() is decoded by an independent RFC 3986 parser and by ParseOTPAuthURL(url.Parse(text)) and both must return the input; parse-only: hand-assembled URLs with digits/period texts over -2^63..2^64+, non-numeric and empty must fail or return exactly the number written; type in any letter case; " +
+		Rule: "round trip: issuers (no colon), accounts and secrets (base32 in every accepted spelling - padded, lower/mixed case, white space - or text) drawn from Unicode incl. space % / ? # & = + @ and percent-escape look-alikes x digits 0..255 x 3 hashes x periods {0,1,29,30,31,60,2^31}; Generate{TOTP,HOTP}URL(p).String() is decoded by an independent RFC 3986 parser and by ParseOTPAuthURL(url.Parse(text)) and both must return the input; parse-only: hand-assembled URLs with digits/period texts over -2^63..2^64+, non-numeric and empty, and numbers followed/preceded by ';', '%', '%zz' (pairs a strict query parser rejects) must fail or return exactly the number written - never the default in its place; URLs kept by the caller are rendered and parsed again after later URL/OCRA/HOTP calls; type in any letter case; " +
 			"distinct_nontrivial counts distinct parameter sets round-tripped plus distinct hand-assembled URL texts",
 		Run: func(c *Ctx) {
 			b := newBatcher(c, judgeURL, 50)
